@@ -675,3 +675,9 @@ def instrument_module_functions(mod, names, eng):
         ast.fix_missing_locations(tree)
         exec(compile(tree, inspect.getsourcefile(fn), "exec"), ns)
     return ns
+
+
+# proxies are immutable values: copying them must never duplicate the engine they report to
+for _cls in (BStr, Rope):
+    _cls.__deepcopy__ = lambda self, memo: self
+    _cls.__copy__ = lambda self: self
